@@ -311,8 +311,9 @@ pub fn hostile_objects() -> Vec<(u64, Val)> {
     o.push((
         67,
         Val::stream(
-            vec![("Type", Val::name("XObject")), ("Subtype", Val::name("Image")), ("Width", Val::Int(8)), ("Height", Val::Int(1)), ("ColorSpace", Val::name("DeviceGray")), ("BitsPerComponent", Val::Int(1)), ("Filter", Val::name("CCITTFaxDecode")), ("DecodeParms", Val::dict(vec![("K", Val::Int(-1)), ("Columns", Val::Int(8)), ("Rows", Val::Int(1))]))],
-            vec![0x26, 0xa0, 0x08, 0x00, 0x80],
+            vec![("Type", Val::name("XObject")), ("Subtype", Val::name("Image")), ("Width", Val::Int(8)), ("Height", Val::Int(2)), ("ColorSpace", Val::name("DeviceGray")), ("BitsPerComponent", Val::Int(1)), ("Filter", Val::name("CCITTFaxDecode")), ("DecodeParms", Val::dict(vec![("K", Val::Int(-1)), ("Columns", Val::Int(8)), ("Rows", Val::Int(2))]))],
+            // two all-white rows in group 4 coding (V0 V0) and the end-of-block code: data that really decodes
+            vec![0xC0, 0x10, 0x01],
         ),
     ));
     o.push((69, Val::dict(vec![("Names", Val::Array(vec![Val::str("file.txt"), Val::r(70)]))])));
